@@ -1,7 +1,8 @@
 #!/bin/bash
-# Build the framework from files on disk only (offline).
+# Build the framework from files on disk only (offline): harness tools, and warm the Go build cache (race runtime).
 set -e
 . /verif/bin/env.sh
-cd /verif
-echo "setup: go $(go version)"
-exit 0
+cd /verif/harness && mkdir -p /verif/build && go build -o /verif/build/ ./cmd/...
+cd /repo && go build -o /dev/null ./cmd/kessoku
+go build -race -o /dev/null std 2>/dev/null || true
+echo "setup ok: $(go version)"
